@@ -102,7 +102,7 @@ func mintLeaf(spec LeafSpec, pub crypto.PublicKey, issuer *CA) (*x509.Certificat
 		SerialNumber:   nextSerial(),
 		Subject:        pkix.Name{CommonName: spec.CN, Organization: spec.Orgs},
 		NotBefore:      now.Add(-time.Hour),
-		NotAfter:       now.Add(24 * time.Hour),
+		NotAfter:       now.Add(9 * 365 * 24 * time.Hour),
 		KeyUsage:       x509.KeyUsageDigitalSignature,
 		DNSNames:       spec.DNS,
 		EmailAddresses: spec.Emails,
